@@ -113,7 +113,9 @@ func (c CodecProto) ReadNext(b []byte, r io.Reader, limit int) ([]byte, int, err
 			}
 			n, err := r.Read(b[len(b):cap(b)])
 			b = b[:len(b)+n]
-			if err != nil {
+			if err != nil && (n == 0 || err != io.EOF) {
+				// Bytes that arrive together with io.EOF are processed
+				// first; the reader reports io.EOF again on the next read.
 				return b, 0, err
 			}
 		}
@@ -213,7 +215,9 @@ func (c CodecJSON) ReadNext(b []byte, r io.Reader, limit int) ([]byte, int, erro
 			}
 			n, err := r.Read(b[len(b):cap(b)])
 			b = b[:len(b)+n]
-			if err != nil {
+			if err != nil && (n == 0 || err != io.EOF) {
+				// Bytes that arrive together with io.EOF are processed
+				// first; the reader reports io.EOF again on the next read.
 				return b, 0, err
 			}
 		}
